@@ -171,7 +171,9 @@ def _append_octopus(draw, spec, models, g):
     sibling of X (child of P, nothing changed); M = merge(L, T1, T2) either
     keeps L's tree (new versions with the single per-file parent X) or
     replays X's edit (carried over, last-changed X)."""
-    cands = [r for r in spec["revs"] if r["parents"] and r["ops"]]
+    # (revisions appended by the resurrection suffix have no model here)
+    cands = [r for r in spec["revs"] if r["parents"] and r["ops"] and
+             r["id"] in models and r["parents"][0] in models]
     if not cands:
         return
     x = draw(st.sampled_from(cands))
